@@ -67,6 +67,12 @@ func (ftpd FungibleTokenPacketData) ValidateBasic() error {
 	if !amount.IsPositive() {
 		return errorsmod.Wrapf(ErrInvalidAmount, "amount must be strictly positive: got %d", amount)
 	}
+	// ICS-20 amounts are decimal strings. math.NewIntFromString also accepts other bases ("010" is read as
+	// octal 8, "0x10" as 16) which the other packet data encodings read differently, so only accept the
+	// canonical decimal form.
+	if amount.String() != ftpd.Amount {
+		return errorsmod.Wrapf(ErrInvalidAmount, "transfer amount (%s) is not a canonical decimal integer", ftpd.Amount)
+	}
 	if strings.TrimSpace(ftpd.Sender) == "" {
 		return errorsmod.Wrap(ibcerrors.ErrInvalidAddress, "sender address cannot be blank")
 	}
